@@ -464,6 +464,7 @@ def run(F, R, tier):
         R.soft_broken("R4: no absorbed pole found (anchor tan_alpha in src/MSSMNoFV/gm2_2loop.cpp vanished?)")
 
     R.guard(_series_branches, F, R)
+    R.guard(_limit_values, F, R)
 
     lo, hi = GUARD_BAND
     R.rule("R3", "tolerance of every pole guard >= %.0e (below that the rounding error of the cancelling numerator, amplified "
@@ -975,3 +976,24 @@ def _series_branches(F, R, rule="R5"):
                 R.soft_broken(rule + " %s: %s" % (short, str(e)[:120]))
     if n == 0:
         R.soft_broken(rule + ": no series branch found in gm2_2loop_B.cpp (anchor dxlog vanished?)")
+
+
+
+def _limit_values(F, R):
+    """the value returned *at* a removable singularity must be the analytic limit, otherwise the result jumps there:
+    shared with C02 (R8: Phi/lambda^2 at lambda^2 = 0 from the bracket of phi_pos; homogeneity of both branches)"""
+    from .rules_c02 import _r8_phi_limit, fn as _fn
+    from .domains import units, UnitFail
+    _r8_phi_limit(F, R)
+    R.rule("R6", "Phi_over_lambda_2: the limit branch and the generic branch have the same homogeneity degree (-1): a "
+                 "normalisation lost in one of them is a jump at lambda^2 = 0", 1)
+    f = _fn(F, "Phi_over_lambda_2", 3)
+    E = Evaluator(F, inline=lambda n_, g: bool(re.search(r"::(sqr|sort)$", n_)), max_depth=3)
+    v, _ = E.function_value(f)
+    try:
+        d = units(v, {p["name"]: Fraction(2) for p in f["params"]})
+        R.check("R6", d == -2, "Phi_over_lambda_2: squared-mass arguments -> GeV^%s in every branch" % d, F.loc(f),
+                "Phi_over_lambda_2 has dimension GeV^%s instead of GeV^-2" % d, key="R6|Phi_over_lambda_2")
+    except UnitFail as ex:
+        R.fail("R6", "Phi_over_lambda_2: branches dimensionally consistent", F.loc(f), "%s: %s" % (ex, show(ex.term)[:120]),
+               key="R6|Phi_over_lambda_2")
